@@ -1,11 +1,11 @@
 (* C08 -- Meek/Warren iterations keep their invariants.  Proved per micro-operation (integer-carrier
    arithmetics): a distribution over strict-ranking ballots credits candidates and the residual with exactly the
-   ballots' multipliers -- for meek/warren (kw_meek / kw_warren) and for meek-prf.  kf ranges are refuted for the
-   current code (open findings K1, K5; Examples by evaluation of the model); exits and equal-rank ballots:
+   ballots' multipliers -- for meek/warren (kw_meek / kw_warren) and for meek-prf.  the keep-factor update of meek/warren
+   never leaves an elected candidate above 1 (fix F12; the lower bound fails under guarded guard>0, open finding K1); exits and equal-rank ballots:
    values-scope correspondence + oracle (_partial). *)
 From Coq Require Import ZArith List Bool String PArith.
 From Droop Require Import Model.KernelBase Model.Arith Model.Prelude Model.State Model.Prims Model.RulesMeek Model.Election
-  Proofs.Zlike Proofs.MeekDist.
+  Proofs.Zlike Proofs.MeekDist Proofs.MeekKf.
 Import ListNotations.
 Open Scope Z_scope.
 
@@ -35,7 +35,16 @@ Theorem C08_distribution_conserved_partial : forall A S (ZL : zlike A S) cfg (bs
 Proof. exact strict_fold_conserves. Qed.
 Print Assumptions C08_distribution_conserved_partial.
 
-(* the kf-range clause is false for the current code: precision 1, kf = 1.2 (open finding K5) *)
+(* keep factors of elected candidates never exceed 1 under meek/warren after fix F12 (the update caps them); for
+   meek-prf the reference rule prescribes the bare update and the clause stays with the oracle.  The lower bound
+   (kf > 0) is false under guarded arithmetic with guard > 0 (open finding K1). *)
+Theorem C08_keep_factor_at_most_one : forall A S (ZL : zlike A S), exact A = false -> forall (s : est A),
+  crashed (update_kfs A true s) = false ->
+  forall c, In c (cands (update_kfs A true s)) -> cst c = Elected -> exists k, ckf c = Some k /\ raw ZL k <= S.
+Proof. exact update_kfs_le_one. Qed.
+Print Assumptions C08_keep_factor_at_most_one.
+
+(* the former witness of finding K5 (precision 1, a keep factor of 1.2 before the fix) now stays within range *)
 Definition k5_profile : profile :=
   mkProfile 4 11
     [mkPcand 1 1 1 "A" "1" false false; mkPcand 2 2 3 "B" "2" false false; mkPcand 3 3 5 "C" "3" false false;
@@ -43,9 +52,9 @@ Definition k5_profile : profile :=
     [(2, [1]); (2, [2]); (2, [1]); (2, [1; 2]); (2, [1; 2; 3; 4]); (1, [1])] [].
 Definition above_one (A : arith) (c : cand A) : bool :=
   match ckf c with Some k => ltv A (of_int A 1) k | None => false end.
-Example C08_kf_above_one_refuted :
+Example C08_former_k5_witness_within_range :
   match run_count (Fixed 1 1) (mkConfig "meek" MMeek 4 11 false false true false 0) (2 ^ 20)%positive RMeek k5_profile with
-  | Done s _ => existsb (fun c => in_state _ Elected c && above_one _ c) (cands s) = true
+  | Done s _ => existsb (fun c => in_state _ Elected c && above_one _ c) (cands s) = false
   | _ => False
   end.
 Proof. vm_compute. reflexivity. Qed.
